@@ -114,14 +114,18 @@ def eval_case(case, drv):
         ds["xo"].attrs.update({"axis": "Q", "c_grid_axis_shift": -0.5})
         ds["xc"].attrs.update({"axis": "Q"})
         if case["which"] == "hierarchy":
-            g = xgcm.Grid(ds)
-            ok = list(g.axes) == ["X"] and dict(g.axes["X"].coords) == {"center": "xc", "outer": "xo"}
-            ds2 = ds.copy()
-            ds2.attrs = {}
-            ds2["xo"].attrs.update({"axis": "Q", "c_grid_axis_shift": 0.5})
-            g2 = xgcm.Grid(ds2.drop_vars("grid"))
-            ok = ok and list(g2.axes) == ["Q"] and dict(g2.axes["Q"].coords) == {"center": "xc", "outer": "xo"}
-            return {"corr_ok": True, "prop_ok": ok, "branch": "hierarchy", "detail": None if ok else {"axes": str(g.axes)}}
+            try:
+                g = xgcm.Grid(ds)
+                ok = list(g.axes) == ["X"] and dict(g.axes["X"].coords) == {"center": "xc", "outer": "xo"}
+                ds2 = ds.copy()
+                ds2.attrs = {}
+                ds2["xo"].attrs.update({"axis": "Q", "c_grid_axis_shift": 0.5})
+                g2 = xgcm.Grid(ds2.drop_vars("grid"))
+                ok = ok and list(g2.axes) == ["Q"] and dict(g2.axes["Q"].coords) == {"center": "xc", "outer": "xo"}
+                det = None if ok else {"axes": str(g.axes), "axes2": str(g2.axes)}
+            except Exception as e:  # noqa: BLE001  -- both datasets are well formed: a refusal is a verdict
+                ok, det = False, {"refused": exc_kind(e) + ": " + str(e)[:150]}
+            return {"corr_ok": True, "prop_ok": ok, "branch": "hierarchy", "detail": det}
         try:
             xgcm.Grid(ds, coords={"X": {"center": "xc", "outer": "xo"}})
             ok = False
